@@ -227,6 +227,9 @@ pub fn check(c: &Case) -> Verdict {
     if c.events.iter().any(|e| matches!(e, EvSpec::Element(..))) {
         v.classes.push("element-builder");
     }
+    if c.sink.0 & 0x80 != 0 {
+        v.classes.push("async-sink-with-partial-vectored-writes");
+    }
     if c.events.windows(2).any(|w| matches!((&w[0], &w[1]), (EvSpec::Text(_), EvSpec::Text(_)))) {
         v.classes.push("adjacent-text");
     }
@@ -235,7 +238,7 @@ pub fn check(c: &Case) -> Verdict {
 
 fn run(ctx: &Ctx) {
     ctx.run_regress::<Case, _>(check);
-    let strat = || Box::new((prop::collection::vec(spec_strategy(2), 0..12), (1u8..9, any::<u64>())).prop_map(|(events, sink)| Case { events, sink }));
+    let strat = || Box::new((prop::collection::vec(spec_strategy(2), 0..12), ((1u8..25, any::<bool>()).prop_map(|(m, v)| m | if v { 0x80 } else { 0 }), any::<u64>())).prop_map(|(events, sink)| Case { events, sink }));
     ctx.run_proptest_with("builder-histories", ctx.tier.pick(1_000_000, 10_000_000), strat, check);
 }
 
